@@ -22,24 +22,24 @@ import (
 // ---------------------------------------------------------------------------
 
 type C17Spec struct {
-	Sub      string   `json:"sub"` // characters | words | "" | other
-	Length   *int     `json:"length,omitempty"`
-	Allow    []string `json:"allow,omitempty"`
-	Require  []string `json:"require,omitempty"`
-	Exclude  []string `json:"exclude,omitempty"`
-	Entropy  bool     `json:"entropy,omitempty"`
-	Size     *int     `json:"size,omitempty"`
-	List     string   `json:"list,omitempty"`
-	File     string   `json:"file,omitempty"` // "" | valid | dups | empty | whitespace | missing | dir
-	Words    []string `json:"words,omitempty"`
-	Sep      string   `json:"sep,omitempty"`
-	Cap      string   `json:"cap,omitempty"`
-	BadFlag  string   `json:"bad_flag,omitempty"`
-	Style    int      `json:"style"` // flag syntax variation
-	Spaces   bool     `json:"spaces,omitempty"`
-	Commas   int      `json:"commas,omitempty"`        // 1 trailing, 2 leading, 3 doubled comma in class lists (empty elements name no class)
-	BlankExclude bool `json:"blank_exclude,omitempty"` // --exclude=" ": an explicit list naming no class (exclude nothing)
-	TapeSeed uint64   `json:"tape_seed"`
+	Sub          string   `json:"sub"` // characters | words | "" | other
+	Length       *int     `json:"length,omitempty"`
+	Allow        []string `json:"allow,omitempty"`
+	Require      []string `json:"require,omitempty"`
+	Exclude      []string `json:"exclude,omitempty"`
+	Entropy      bool     `json:"entropy,omitempty"`
+	Size         *int     `json:"size,omitempty"`
+	List         string   `json:"list,omitempty"`
+	File         string   `json:"file,omitempty"` // "" | valid | dups | empty | whitespace | missing | dir
+	Words        []string `json:"words,omitempty"`
+	Sep          string   `json:"sep,omitempty"`
+	Cap          string   `json:"cap,omitempty"`
+	BadFlag      string   `json:"bad_flag,omitempty"`
+	Style        int      `json:"style"` // flag syntax variation
+	Spaces       bool     `json:"spaces,omitempty"`
+	Commas       int      `json:"commas,omitempty"`        // 1 trailing, 2 leading, 3 doubled comma in class lists (empty elements name no class)
+	BlankExclude bool     `json:"blank_exclude,omitempty"` // --exclude=" ": an explicit list naming no class (exclude nothing)
+	TapeSeed     uint64   `json:"tape_seed"`
 }
 
 var classBits = map[string]uint32{"uppercase": 1, "lowercase": 2, "digits": 4, "symbols": 8, "ambiguous": 16}
@@ -389,8 +389,8 @@ func opgenBinary() string {
 func init() {
 	register(&CheckDef{
 		ID: "C17", Level: "exploration",
-		Technique: "deterministic simulation of the opgen process: child built from the working tree with the verif tag, with simulator-owned argv, word-list file state, stdio pipes and a file-backed random tape (hook H7); stdout compared exactly with the equivalent library recipe evaluated in-process on the same tape; usage / refusal / file-fault exit statuses checked",
-		Rule:      "case = one opgen invocation; distinct by hash of (argv shape, file state); non-trivial = at least one flag besides the subcommand, or a file, or an error path",
+		Technique:   "deterministic simulation of the opgen process: child built from the working tree with the verif tag, with simulator-owned argv, word-list file state, stdio pipes and a file-backed random tape (hook H7); stdout compared exactly with the equivalent library recipe evaluated in-process on the same tape; usage / refusal / file-fault exit statuses checked",
+		Rule:        "case = one opgen invocation; distinct by hash of (argv shape, file state); non-trivial = at least one flag besides the subcommand, or a file, or an error path",
 		Assumptions: []string{"the tagged binary differs from the shipped one only by hook H7's init (tape instead of the OS source, sorted index orders)", "don't-care: unknown words inside --allow/--require/--exclude, unknown --separator/--capitalize values, explicit empty class lists, -h/--help, --entropy of a recipe the library refuses", "this is mostly configuration exploration; simulation contributes the deterministic child process (exact oracle) and the file faults"},
 		Episodes:    map[string]int{"quick": 4000, "thorough": 800000},
 		TwiceEvery:  9,
